@@ -1,4 +1,5 @@
 import Mochi.Model.Broker
+import Mochi.Lemmas.AckRes
 /-!
 # C17 — Authorisation is enforced on every route a message can take
 
@@ -37,7 +38,7 @@ theorem C17_write (s : Server) (i : Nat) (q : Nat) (d r : Bool) (id : Nat) (topi
   · split
     · simp [disconnectClient, stopClient, setObj]
       split <;> simp [setObj]
-    · exact ⟨rfl, rfl⟩
+    · simp only [ackRes_fst, and_self]
 
 /-- clients cannot publish to `$SYS`: the publish is refused before any routing -/
 theorem C17_sys (s : Server) (i : Nat) (q : Nat) (d r : Bool) (id : Nat) (topic payload : Str) (me : Nat) (al : Option Nat)
@@ -51,6 +52,6 @@ theorem C17_sys (s : Server) (i : Nat) (q : Nat) (d r : Bool) (id : Nat) (topic 
   · split
     · simp [disconnectClient, stopClient, setObj]
       split <;> simp [setObj]
-    · exact ⟨rfl, rfl⟩
+    · simp only [ackRes_fst, and_self]
 
 end Mochi.Broker
